@@ -103,7 +103,7 @@ pub fn run_ops(hk: HKind, ops: &[(usize, Op)], quiet: bool) -> World {
     w
 }
 
-fn gen_history(id: usize, seed: u64, slice: Slice, nops: usize, max_len: usize) -> HistResult {
+fn gen_history(id: usize, seed: u64, slice: Slice, nops: usize, max_len: usize, progress: &str) -> HistResult {
     let hseed = seed.wrapping_mul(1_000_003).wrapping_add(id as u64);
     let mut g = Gen::new(hseed, slice, max_len);
     // the fully colliding hasher is quadratic: only for small targets
@@ -115,6 +115,13 @@ fn gen_history(id: usize, seed: u64, slice: Slice, nops: usize, max_len: usize) 
         }
     };
     let mut w = fresh_world(hk);
+    let pfile = if progress.is_empty() { String::new() } else { format!("{progress}/h{id}.ops") };
+    if !pfile.is_empty() {
+        if let Ok(mut f) = std::fs::File::create(&pfile) {
+            let _ = writeln!(f, "# history {id} (seed {hseed})\nH hasher={}", hk_name(hk));
+            w.progress = Some(f);
+        }
+    }
     let mut ops = vec![];
     for _ in 0..nops {
         let (mid, op) = g.next(&w);
@@ -122,6 +129,10 @@ fn gen_history(id: usize, seed: u64, slice: Slice, nops: usize, max_len: usize) 
         ops.push((mid, op));
     }
     finish(&mut w);
+    w.progress = None;
+    if !pfile.is_empty() {
+        let _ = std::fs::remove_file(&pfile);
+    }
     let fails = w.fails.take();
     HistResult { id, seed: hseed, hk, ops, transcript: std::mem::take(&mut w.transcript), fails, stats: w.stats.clone() }
 }
@@ -278,6 +289,7 @@ fn cmd_run(args: &[String]) {
     let report = arg(args, "--report").unwrap_or("/dev/null").to_string();
     let replay_dir = arg(args, "--replays").unwrap_or("").to_string();
     let tag = arg(args, "--tag").unwrap_or("run").to_string();
+    let progress = arg(args, "--progress").unwrap_or("").to_string();
 
     let next = AtomicUsize::new(0);
     let results: Mutex<Vec<HistResult>> = Mutex::new(vec![]);
@@ -290,7 +302,7 @@ fn cmd_run(args: &[String]) {
                     if i >= hists {
                         break;
                     }
-                    let r = gen_history(i, seed, slice, nops, max_len);
+                    let r = gen_history(i, seed, slice, nops, max_len, &progress);
                     results.lock().unwrap().push(r);
                 }
             });
